@@ -128,6 +128,8 @@ def child_ty(it, ctx, child):
 
 
 _seen_depth = {}
+_x87_live = {}     # (fname, kind) -> {child label: (x87 depth pending while the child is evaluated, trace)}
+_x87_seen = set()
 
 
 def _lab(o):
@@ -206,7 +208,12 @@ def check_kind(cg, rep, rule, fname, kind, mk, ret_stmt=False, value_from_last_s
                 if n[1] == 'expr':
                     return (0, 1 if a[kid_cell[id(n[2])]] == 'ld' else 0)
                 return (0, 0)
-            exits, ext, problems = flow_heights(nodes, pe)
+            live = []
+            exits, ext, problems = flow_heights(nodes, pe, on_pseudo=lambda n, h: live.append((n, h)) if h[1] > 0 else None)
+            for n, h in live:
+                lab = _lab(n[2]) if len(n) > 2 else n[1]
+                _x87_live.setdefault((fname, kind), {}).setdefault(lab, (h[1], tr.text()))
+            _x87_seen.add((fname, kind))
             want = 1 if (fname == 'gen_expr' and ncls == 'ld') else 0
             msgs = []
             for p in problems:
@@ -291,6 +298,20 @@ def run(P, rep, tier):
         n = check_kind(cg, rep, 'R20.2', 'gen_stmt', kind, preset_stmt(cg, kind), ret_stmt=(kind == 'ND_RETURN'))
         if n == 0:
             rep.undecided('R20.2', '%s:gen_stmt:%s' % (U, kind), 'no returning path')
+    # the x87 register stack is empty whenever an operand, sub-statement or address is generated: the operand may contain a call, the callee needs
+    # all eight registers (psABI 3.2.3: empty on entry), and in a recursive function every pending value costs one register per activation
+    rep.rule('R20.12', 'no arm of gen_expr / gen_stmt / gen_addr holds a value on the x87 register stack while it generates one of its children (a pending value is spilled to memory first): with the contract of R20.1 this makes the x87 stack empty at every call instruction, so recursion depth and callees cannot overflow it', floor=45)
+    for (fname, kind) in sorted(_x87_seen):
+        bad = _x87_live.get((fname, kind), {})
+        fn = cg.cu.fn(fname)
+        where = '%s:%d' % (U, fn.line if fn else 0)
+        if not bad:
+            rep.ob('R20.12', '%s:%s:%s:x87-empty-while-children-are-generated' % (U, fname, kind), True, '', where=where)
+        for lab, (d, text) in sorted(bad.items()):
+            rep.ob('R20.12', '%s:%s:%s:x87-value-pending-while-%s-is-generated' % (U, fname, kind, lab), False,
+                   '%s of %s generates its child `%s` while %d value(s) of its own are on the x87 register stack: a call inside that child enters the callee with a non-empty x87 stack, '
+                   'and a recursive function (`return n ? p[n] * f(p, n - 1) : p[0];`) loses one register per activation - from depth 8 on the result is NaN' % (fname, kind, lab, d),
+                   where=where, facts={'trace': text})
 
 
 # aggregate shapes of this module in addition to the psABI vocabulary of sa/lib_abi.py (same format: size, align, members); they exist
